@@ -33,6 +33,7 @@ func c02Bases(seed int64, thorough bool) []*e2eCase {
 	mk(false, true, 4, false, 0, []int64{9000, 300})
 	mk(true, true, 4, false, 2, []int64{6000})
 	mk(false, false, 4, false, 1, []int64{5000, 0})
+	mk(false, false, 4, false, 2, []int64{4000})
 	if thorough {
 		mk(true, false, 1, false, 0, []int64{3000, 100})
 		mk(false, false, 2, false, 0, []int64{6000})
@@ -94,6 +95,43 @@ func c02Faults(d *vCtx) error {
 							val = []byte{'\n', '#', ':', '0', '9', 0xee, 'A', '=', '/', '!'}[rng.Intn(10)]
 						}
 						jobs = append(jobs, c02Job{bi, []e2eFault{{Dir: m.Dir, Off: o, Kind: k, Val: val}}, m.Typ})
+					}
+				}
+			}
+			// targeted double faults: payload damage that may still decode, together with damage to
+			// the digest line of the same file (a digest that cannot be decoded must not be skipped)
+			if c.Opts.Compress == 2 {
+				var datas, md5s []e2eLayoutMsg
+				for _, m := range w {
+					if m.Typ == "DATA" && m.Len > 40 {
+						datas = append(datas, m)
+					}
+					if m.Typ == "MD5" {
+						md5s = append(md5s, m)
+					}
+				}
+				for di, dm := range datas {
+					if di >= 2 && !thorough {
+						break
+					}
+					var md *e2eLayoutMsg
+					for i := range md5s {
+						if md5s[i].Dir == dm.Dir && md5s[i].G > dm.G {
+							md = &md5s[i]
+							break
+						}
+					}
+					if md == nil {
+						continue
+					}
+					for _, mask := range []byte{0x01, 0x02, 0x04} {
+						for mi, mk := range []string{"flip", "del", "ins"} {
+							off := dm.Off + dm.Len/2 + int(mask)
+							jobs = append(jobs, c02Job{bi, []e2eFault{
+								{Dir: dm.Dir, Off: off, Kind: "flip", Val: mask},
+								{Dir: md.Dir, Off: md.Off + 5 + md.Len/2 + mi, Kind: mk, Val: byte('A' + mask)},
+							}, "data+md5"})
+						}
 					}
 				}
 			}
